@@ -1,6 +1,6 @@
 (* Props/C12.v — escaping makes arbitrary text wire-safe; colour stripping is exact. *)
 Require Import Coq.Strings.String.
-Require Import Base.Bytes Gen.TextTab Text.Escape Text.EscapeProofs Text.Codepage Text.CodepageProofs.
+Require Import Base.Bytes Gen.TextTab Text.Escape Text.EscapeProofs Text.Codepage Text.CodepageProofs Text.CodepageRoundtrip Text.WireComposition.
 Local Open Scope N_scope.
 
 Theorem c12_unescape_escape : forall s, unescape (escape s) = s.
@@ -24,20 +24,33 @@ Proof. exact strip_keeps_escaped_carets. Qed.
 Theorem c12_fast_paths : forall s, escape s = esc s /\ unescape s = unesc s /\ strip s = strp s.
 Proof. intros. split; [apply escape_is_esc|split; [apply unescape_is_unesc|apply strip_is_strp]]. Qed.
 
-(* composition with the codepage path: proved for ASCII text without carets, for any code tables
-   that decode ASCII as itself ... *)
-Theorem c12_wire_composition_partial : forall enc dec,
-  (forall l bs, forallb is_ascii bs = true -> dec l bs = bs) ->
-  forall s, forallb is_ascii s = true -> existsb is_caret s = false ->
+(* composition with the codepage path, at full strength: for every code-table oracle satisfying the
+   named hypotheses (validated exhaustively on encoding_rs), EVERY string whose non-ASCII characters exist
+   in some codepage survives escape -> codepage encode -> codepage decode -> unescape: carets, reserved
+   characters, colours (incl. ^8), carets before codepage letters, double-byte characters with a 0x5E
+   trail byte. (Before 68d499a this was refuted by "^L" and "<trail 5E>L": the former known findings.) *)
+Theorem c12_wire_composition : forall enc dec,
+  (forall l c w, enc l c = Some w -> exists b1, 128 <= b1 /\ (w = [b1] \/ exists b2, w = [b1; b2])) ->
+  (forall l, dec l [] = []) ->
+  (forall l b r, is_ascii b = true -> dec l (b :: r) = b :: dec l r) ->
+  (forall l c w r, enc l c = Some w -> dec l (w ++ r) = c :: dec l r) ->
+  (forall l c b1 b2, enc l c = Some [b1; b2] -> lead l b1 = true) ->
+  (forall l c b1, enc l c = Some [b1] -> lead l b1 = false) ->
+  (forall bs, dec gen_propagate_letter bs = dec gen_default_codepage bs) ->
+  forall s, Forall (encodable enc) s ->
   unescape (to_lossy_string dec (to_lossy_bytes enc (escape s))) = s.
-Proof. exact escaped_ascii_survives_wire. Qed.
-(* ... and refuted in general: a caret followed by a codepage letter is eaten by the decoder's
-   marker scan (known finding) *)
-Theorem c12_caret_marker_refuted : forall enc dec,
-  (forall l bs, forallb is_ascii bs = true -> dec l bs = bs) ->
-  exists s, forallb is_ascii s = true /\ unescape (to_lossy_string dec (to_lossy_bytes enc (escape s))) <> s.
-Proof. exact caret_marker_refuted. Qed.
+Proof. exact escaped_text_survives_the_wire. Qed.
 
 Theorem c12_tables : tab_inverse = true. Proof. exact tab_inverse_ok. Qed.
 Example c12_example : escape [94; 124; 42; 49] = [94; 94; 94; 118; 94; 97; 49] /\ strip [94; 94; 49; 94; 50; 51] = [94; 94; 49; 51].
+Proof. vm_compute. auto. Qed.
+
+(* non-vacuity of the composition's premises and the two former counter-examples, over a toy table in which
+   U+3042 is the double-byte character 83 5E of codepage J and nothing else is encodable *)
+Definition toy_enc (l c : N) : option (list N) := if (l =? 74) && (c =? 12354) then Some [131; 94] else None.
+Example c12_former_counterexamples_are_escaped_safely :
+  escape [94; 76] = [94; 94; 76] /\
+  safe toy_enc gen_default_codepage false (escape [94; 76]) = true /\
+  safe toy_enc gen_default_codepage false (escape [12354; 76]) = true /\
+  to_lossy_bytes toy_enc (escape [12354; 76]) = [94; 74; 131; 94; 76].
 Proof. vm_compute. auto. Qed.
